@@ -146,6 +146,7 @@ type funcResult struct {
 	con      *Contract
 	err      string
 	retGuard string
+	stale    string // contract refers to names that no longer exist (rename): obligations not claimed in this run
 }
 
 // verifyFunc: two passes over the same function. The first discovers the
@@ -154,7 +155,7 @@ type funcResult struct {
 // complete).
 func (p *Program) verifyFunc(con *Contract) (res *funcResult) {
 	first := p.verifyFuncPass(con, nil)
-	if first.err != "" || p.fns[con.Full] == nil {
+	if first.err != "" || first.stale != "" || p.fns[con.Full] == nil {
 		return first
 	}
 	return p.verifyFuncPass(con, first.vc)
@@ -165,6 +166,18 @@ func (p *Program) verifyFuncPass(con *Contract, prev *VC) (res *funcResult) {
 	vc := newVC(p, con.FuncName)
 	res = &funcResult{vc: vc, con: con}
 	if fn == nil {
+		// an exported function (or a method of an exported type) that vanished is a failed
+		// obligation; an unexported helper that was renamed/inlined only makes the contract stale
+		name := con.FuncName
+		base := name
+		if i := strings.LastIndex(base, "."); i >= 0 {
+			base = base[i+1:]
+		}
+		exported := len(base) > 0 && base[0] >= 'A' && base[0] <= 'Z' && !strings.Contains(name, "$")
+		if !exported {
+			res.stale = "no function " + con.Full + " (unexported: renamed, removed or inlined)"
+			return res
+		}
 		o := vc.oblige("contract-binding", con.FuncName+"/contract-binding", "true", "false", fmt.Sprintf("%s:%d", con.File, con.Line))
 		o.Result = &SolverResult{Status: "sat", Solver: "gvc", Output: "no function " + con.Full + " in the loaded program"}
 		return res
@@ -178,6 +191,13 @@ func (p *Program) verifyFuncPass(con *Contract, prev *VC) (res *funcResult) {
 				panic(r)
 			}
 			res.err = msg
+			if strings.Contains(msg, "unknown identifier") || strings.Contains(msg, "no field ") {
+				// the contract mentions a parameter / local / field that no longer exists under that
+				// name (a rename): the contract is stale, which is not evidence of a violation
+				res.stale = msg
+				vc.obls = nil
+				return
+			}
 			o := vc.oblige("engine", con.FuncName+"/engine[out of subset]", "true", "false", "")
 			o.Result = &SolverResult{Status: "unknown", Solver: "gvc", Output: msg}
 		}
